@@ -1,0 +1,35 @@
+//go:build verif
+
+package hclsyntax
+
+// Contracts for the hvc verifier (/verif). Comment-only.
+//
+// C14 (the part a contract can state): a quoted string of a profile means what it
+// says. The string-literal scanner cuts the token into slices (escape sequences
+// and literal runs); ParseStringLiteralToken turns every slice into exactly the
+// bytes this dialect defines for it:
+//   \n \r \t \" \\   one byte: LF, CR, TAB, quote, backslash
+//   \xHH             the one byte HH - exactly two hexadecimal digits; whatever else the
+//                    scanner attached to the sequence (it takes up to four hex digits) is text
+//   $${  %%{         the two characters ${ resp. %{
+//   anything else    itself
+// Nothing is ever dropped: every append adds either such a decoded byte or a
+// piece of the slice itself.
+// The scanner (ragel-generated, not verified) returns pieces of its input: assumed.
+//@ func scanStringLit(data []byte, quoted bool) (r [][]byte)
+//@   trusted
+//@   pure
+//@   ensures pieces: forall(k, 0, len(r), len(r[k]) == 0 || samearray(r[k], data))
+//@ func ParseStringLiteralToken(tok Token) (s string, diags hcl.Diagnostics)
+//@   requires kind: tok.Type == TokenQuotedLit || tok.Type == TokenStringLit
+//@   modifies *
+//@   guard-call simple: "append" (argis(0, "ret") && !argis(1, "bt") && len(arg(1)) == 1 && fresh(arrayof(arg(1)))) ==> (len(slice) >= 2 && ((slice[1] == 110 && arg(1)[0] == 10) || (slice[1] == 114 && arg(1)[0] == 13) || (slice[1] == 116 && arg(1)[0] == 9) || (slice[1] == 34 && arg(1)[0] == 34) || (slice[1] == 92 && arg(1)[0] == 92) || ((slice[1] == 117 || slice[1] == 85) && arg(1)[0] == 0) || ((slice[0] == 36 || slice[0] == 37) && len(slice) == 3 && slice[1] == slice[0] && slice[2] == 123 && (arg(1)[0] == slice[0] || arg(1)[0] == 123))))
+//@   guard-call hexbyte: "append" (argis(0, "ret") && argis(1, "bt")) ==> (len(slice) >= 4 && slice[1] == 120 && len(bt) == 1 && bt[0] == uf_hexbyte(lastarg(DecodeString, 0)) && strofbytes(lastarg(DecodeString, 0), slice[2:4]))
+//@   guard-call verbatim: "append" (argis(0, "ret") && !argis(1, "bt") && !(len(arg(1)) == 1 && fresh(arrayof(arg(1))))) ==> (sameslice(arg(1), slice) || (len(slice) >= 4 && slice[1] == 120 && sameslice(arg(1), slice[4:])) || (len(slice) >= 2 && slice[0] == 92 && sameslice(arg(1), slice[1:])))
+//   (the result buffer is this call's own storage, the pieces lie in the token's bytes: writing one never changes the other)
+//@   loop "for _, slice := range slices"
+//@     invariant own: (cap(ret) == 0 || fresh(arrayof(ret))) && forall(k, 0, len(slices), len(slices[k]) == 0 || samearray(slices[k], tok.Bytes))
+//@   loop "for len(b) > 0"
+//@     invariant own: (cap(ret) == 0 || fresh(arrayof(ret))) && forall(k, 0, len(slices), len(slices[k]) == 0 || samearray(slices[k], tok.Bytes)) && len(slice) > 0
+//@   loop "for i := 0; i < l; i++"
+//@     invariant own: (cap(ret) == 0 || fresh(arrayof(ret))) && forall(k, 0, len(slices), len(slices[k]) == 0 || samearray(slices[k], tok.Bytes)) && len(slice) >= 2 && (slice[1] == 117 || slice[1] == 85)
